@@ -15,7 +15,9 @@ import sys
 
 VERIF = os.path.dirname(os.path.dirname(os.path.abspath(__file__)))
 
-BENIGN_PROPS = {"L": ["C05", "C09", "C10"], "C09": ["C09"],
+BENIGN_PROPS = {"L": ["C05", "C09", "C10"], "M": ["C05", "C09", "C10"], "C09": ["C09"],
+                "P1": ["C06", "C07"], "P2": ["C06", "C07"], "P3": ["C06", "C07"], "P4": ["C13"], "P5": ["C14"], "P6": ["C14"],
+                "P7": ["C15"], "P8": ["C15"], "P9": ["C18"], "P10": ["C18"], "P11": ["C19"], "P12": ["C19"],
                 "O1": ["C06", "C07"], "O2": ["C06", "C07"], "O3": ["C13"], "O4": ["C13"], "O5": ["C14"], "O6": ["C14"],
                 "O7": ["C15"], "O8": ["C15"], "O9": ["C18"], "O10": ["C18"], "O11": ["C19"], "O12": ["C19"]}
 PAIRS = {"C05": ["C05", "C10"], "C10": ["C10", "C05"], "C09": ["C09"], "C06": ["C06", "C07"], "C07": ["C07", "C06"]}
@@ -24,7 +26,7 @@ PAIRS = {"C05": ["C05", "C10"], "C10": ["C10", "C05"], "C09": ["C09"], "C06": ["
 def props_for(kind, name):
     if kind == "benign":
         for k in sorted(BENIGN_PROPS, key=len, reverse=True):
-            if name == k or (k in ("L", "C09") and name.startswith(k)):
+            if name == k or (k in ("L", "M", "C09") and name.startswith(k)):
                 return BENIGN_PROPS[k]
     p = name[:3]
     return PAIRS.get(p, [p])
